@@ -1,10 +1,531 @@
 /-
-  MdModel.Symbolize — placeholder (model not written yet).
+  MdModel.Symbolize — model of symbolication (property C11):
+    * `SymbolFile::fill_symbol`               (breakpad-symbols/src/sym_file/mod.rs:340-492)
+    * `SymbolFile::find_nearest_public`       (mod.rs:528)
+    * `Function::{get_outermost_sourceloc, get_innermost_sourceloc, get_inlinee_at_depth}`
+                                              (breakpad-symbols/src/sym_file/types.rs:91-147)
+    * the tables as built by `SymbolParser::{finish_item, finish}` (parser.rs:660-723): lines with
+      size 0 dropped, `into_rangemap_safe` (Option layer) for the line table, INLINE ranges with
+      size 0 dropped (`inlinees.retain(|i| i.size > 0)`, /repo 2be1766), `inlinees.sort()`,
+      FUNCs pushed only with a valid `memory_range()`, parser copy of `into_rangemap_safe`,
+      `publics.sort()`, the STACK WIN overlap repair
+    * `fill_source_line_info`'s module lookup and `inlines.reverse()` (minidump-unwind/src/lib.rs:681-703)
+    * `core::slice::binary_search_by` as shipped with the toolchain that builds the harness
+      (rustc >= 1.82: the branch-free "base/size" loop, no early exit on `Equal`), so that the
+      element picked among duplicates is the one the real code picks.
+  Range tables come from `MdModel.RangeMap` (C08); table *values* are positions:
+  the canonical (= first equal) position of the record in its list, so that value equality in the
+  table builder is exactly structural equality of the Rust records.
 -/
 import MdModel.Prelude
+import MdModel.RangeMap
 namespace MdModel.Symbolize
+open MdModel MdModel.RangeMap
 
-/-- line-protocol entry point of this model (engine(s): symb) -/
-def handle (_engine : String) (_args : List String) : String := "bad-op"
+/-- a name (function, file, inline origin): its bytes -/
+abbrev Name := List Nat
+
+/-- `SourceLine` -/
+structure Line where
+  addr : Nat
+  size : Nat
+  file : Nat
+  line : Nat
+  deriving DecidableEq, Repr
+
+/-- `Inlinee` (one address range of an INLINE record); field order = derived `Ord` order -/
+structure Inl where
+  depth : Nat
+  addr : Nat
+  size : Nat
+  callFile : Nat
+  callLine : Nat
+  origin : Nat
+  deriving DecidableEq, Repr
+
+/-- a FUNC record with the sub-records that followed it in the file -/
+structure Func where
+  addr : Nat
+  size : Nat
+  psize : Nat
+  name : Name
+  lines : List Line
+  inls : List Inl
+  deriving DecidableEq, Repr
+
+/-- `PublicSymbol`; field order = derived `Ord` order -/
+structure Pub where
+  addr : Nat
+  name : Name
+  psize : Nat
+  deriving DecidableEq, Repr
+
+/-- the records of one symbol file, in file order within each kind -/
+structure Recs where
+  files : List (Nat × Name) := []
+  origins : List (Nat × Name) := []
+  pubs : List Pub := []
+  funcs : List Func := []
+  /-- STACK WIN type 4 (frame data) / type 0 (fpo): address, size, tag = parameter size -/
+  win4 : List Rec := []
+  win0 : List Rec := []
+  deriving Repr
+
+/-! ### orders -/
+
+/-- lexicographic `≤` on lists of numbers (`str`/`String` `Ord` = byte-wise lexicographic;
+    derived `Ord` of a struct of integers = lexicographic on the field tuple) -/
+def lexLe : List Nat → List Nat → Bool
+  | [], _ => true
+  | _ :: _, [] => false
+  | a :: as, b :: bs => a < b || (a == b && lexLe as bs)
+
+def Inl.key (i : Inl) : List Nat := [i.depth, i.addr, i.size, i.callFile, i.callLine, i.origin]
+
+/-- derived `Ord` on `Inlinee` -/
+def inlLe (i j : Inl) : Bool := lexLe i.key j.key
+
+/-- derived `Ord` on `PublicSymbol`: `(address, name, parameter_size)` -/
+def pubLe (p q : Pub) : Bool :=
+  p.addr < q.addr ||
+    (p.addr == q.addr &&
+      ((lexLe p.name q.name && p.name != q.name) || (p.name == q.name && p.psize ≤ q.psize)))
+
+/-- `HashMap::get` after the inserts of the file in order: the last insert of a key wins -/
+def mapGet (m : List (Nat × Name)) (k : Nat) : Option Name :=
+  (m.reverse.find? fun e => e.1 == k).map (·.2)
+
+/-! ### `finish_item` / `finish`: the tables -/
+
+/-- a `Function` as stored in the table -/
+structure BFunc where
+  addr : Nat
+  size : Nat
+  psize : Nat
+  name : Name
+  /-- the line records that survive the `size > 0` filter, in file order -/
+  lines : List Line
+  /-- `Function.lines`; value = canonical position in `lines` -/
+  ltab : List Entry
+  /-- `Function.inlinees`: the non-empty ranges, sorted -/
+  inls : List Inl
+  deriving DecidableEq, Repr
+
+/-- input of the line table's `into_rangemap_safe`: `(address.checked_add(size-1) range, line)` -/
+def lineInput (ls : List Line) : List (Option Rng × Val) :=
+  ls.map fun l => (mkRangeLine l.addr l.size, ls.idxOf l)
+
+/-- `finish_item` for a FUNC (parser.rs:662-684): empty line records and empty inlinee ranges are
+    dropped before the tables are built -/
+def finishItem (f : Func) : Outcome BFunc :=
+  let ls := f.lines.filter fun l => l.size > 0
+  match safe (lineInput ls) with
+  | .panic s => .panic s
+  | .ok t =>
+    .ok { addr := f.addr, size := f.size, psize := f.psize, name := f.name,
+          lines := ls, ltab := t,
+          inls := (f.inls.filter fun x => x.size > 0).mergeSort inlLe }
+
+def finishAll : List Func → Outcome (List BFunc)
+  | [] => .ok []
+  | f :: rest =>
+    match finishItem f with
+    | .panic s => .panic s
+    | .ok b =>
+      match finishAll rest with
+      | .panic s => .panic s
+      | .ok bs => .ok (b :: bs)
+
+/-- the line table with the records themselves as values (what `RangeMap<u64, SourceLine>`
+    equality looks at) -/
+def BFunc.rtab (b : BFunc) : List (Rng × Option Line) := b.ltab.map fun e => (e.1, b.lines[e.2]?)
+
+/-- everything `#[derive(PartialEq)]` on `Function` compares -/
+def BFunc.key (b : BFunc) : Nat × Nat × Nat × Name × List (Rng × Option Line) × List Inl :=
+  (b.addr, b.size, b.psize, b.name, b.rtab, b.inls)
+
+/-- table value of a function: position of the first structurally equal function -/
+def funcVal (bs : List BFunc) (b : BFunc) : Val := (bs.map BFunc.key).idxOf b.key
+
+/-- input of the function table: only functions with `memory_range() = Some` are pushed -/
+def funcInput (bs : List BFunc) : List Entry :=
+  validOnly (bs.map fun b => (mkRange b.addr b.size, funcVal bs b))
+
+/-- a STACK WIN table: overlap repair while inserting, then the parser copy of the safe builder -/
+def winTable (recs : List Rec) : Outcome (List Entry) :=
+  match insertWinAll [] recs with
+  | .panic s => .panic s
+  | .ok v => safeP (v.map fun (r, w) => (r, w.enc))
+
+/-- `SymbolFile` as far as `fill_symbol` reads it -/
+structure SymFile where
+  files : List (Nat × Name)
+  origins : List (Nat × Name)
+  /-- sorted -/
+  pubs : List Pub
+  funcs : List BFunc
+  /-- `SymbolFile.functions`; value = canonical position in `funcs` -/
+  ftab : List Entry
+  wfd : List Entry
+  wfpo : List Entry
+  deriving Repr
+
+/-- `SymbolParser::finish` on the accumulated records -/
+def build (r : Recs) : Outcome SymFile :=
+  match finishAll r.funcs with
+  | .panic s => .panic s
+  | .ok bs =>
+    match safeP (funcInput bs) with
+    | .panic s => .panic s
+    | .ok ftab =>
+      match winTable r.win4 with
+      | .panic s => .panic s
+      | .ok wfd =>
+        match winTable r.win0 with
+        | .panic s => .panic s
+        | .ok wfpo =>
+          .ok { files := r.files, origins := r.origins, pubs := r.pubs.mergeSort pubLe,
+                funcs := bs, ftab := ftab, wfd := wfd, wfpo := wfpo }
+
+/-! ### `core::slice::binary_search_by` -/
+
+inductive BS where
+  | found (i : Nat)
+  | notFound (i : Nat)
+  deriving DecidableEq, Repr
+
+/-- the `while size > 1` loop; `probe k` = `f(&self[k])`; fuel = initial size (each round removes
+    `half ≥ 1` from `size`) -/
+def bsLoop (probe : Nat → Ordering) : Nat → Nat → Nat → Nat
+  | 0, base, _ => base
+  | fuel + 1, base, size =>
+    if size > 1 then
+      let half := size / 2
+      let mid := base + half
+      let base' := if probe mid = .gt then base else mid
+      bsLoop probe fuel base' (size - half)
+    else base
+
+def binarySearchBy (n : Nat) (probe : Nat → Ordering) : BS :=
+  if n = 0 then .notFound 0 else
+  let base := bsLoop probe n 0 n
+  match probe base with
+  | .eq => .found base
+  | .lt => .notFound (base + 1)
+  | .gt => .notFound base
+
+def cmpNat (a b : Nat) : Ordering := if a < b then .lt else if a > b then .gt else .eq
+
+/-- `(inlinee.depth, inlinee.address).cmp(&(depth, addr))` -/
+def cmpDepthAddr (depth addr : Nat) (i : Inl) : Ordering :=
+  match cmpNat i.depth depth with
+  | .eq => cmpNat i.addr addr
+  | o => o
+
+/-- probe function over a list; the index is always in range (`bsLoop_lt`), the `none` arm is the
+    `get_unchecked` that cannot happen -/
+def probeOf {α : Type} (xs : List α) (cmp : α → Ordering) (k : Nat) : Ordering :=
+  match xs[k]? with
+  | some x => cmp x
+  | none => .gt
+
+/-! ### `Function` lookups -/
+
+/-- `Function::get_inlinee_at_depth` (types.rs:120-147); returns the record (the Rust tuple is
+    `(call_file, call_line, address, origin_id)` of it) -/
+def inlineeAt (inls : List Inl) (depth addr : Nat) : Outcome (Option Inl) :=
+  let cand : Outcome (Option Inl) :=
+    match binarySearchBy inls.length (probeOf inls (cmpDepthAddr depth addr)) with
+    | .found i =>
+      match inls[i]? with
+      | some x => .ok (some x)
+      | none => .panic "get_inlinee_at_depth: self.inlinees[index]"
+    | .notFound 0 => .ok none
+    | .notFound (i + 1) =>
+      match inls[i]? with
+      | some x => .ok (some x)
+      | none => .panic "get_inlinee_at_depth: self.inlinees[index - 1]"
+  match cand with
+  | .panic s => .panic s
+  | .ok none => .ok none
+  | .ok (some x) =>
+    if x.depth ≠ depth then .ok none
+    else if x.addr + x.size > U64MAX then .ok none          -- `checked_add(..)?`
+    else if addr < x.addr + x.size then .ok (some x)
+    else .ok none
+
+/-- `self.lines.get(addr)` -/
+def lineAt (f : BFunc) (addr : Nat) : Option Line :=
+  (get f.ltab addr).bind fun v => f.lines[v]?
+
+/-- `self.functions.get(addr)` -/
+def funcAt (funcs : List BFunc) (ftab : List Entry) (addr : Nat) : Option BFunc :=
+  (get ftab addr).bind fun v => funcs[v]?
+
+/-! ### `fill_symbol` -/
+
+structure InlineFrame where
+  name : Name
+  file : Option Name
+  line : Option Nat
+  deriving DecidableEq, Repr
+
+/-- what a `FrameSymbolizer` receives -/
+structure Frame where
+  /-- `set_function(name, base, parameter_size)` -/
+  fn : Option (Name × Nat × Nat) := none
+  /-- `set_source_file(file, line, base)` -/
+  src : Option (Name × Nat × Nat) := none
+  /-- `add_inline_frame` calls in order -/
+  inl : List InlineFrame := []
+  deriving DecidableEq, Repr
+
+/-- `u64 + u64` with overflow checks -/
+def checkedAdd (a b : Nat) (site : String) : Outcome Nat :=
+  if a + b > U64MAX then .panic site else .ok (a + b)
+
+/-- parameter size: frame data, else fpo, else the FUNC's (mod.rs:355-361) -/
+def paramSize (sf : SymFile) (addr : Nat) (f : BFunc) : Nat :=
+  match get sf.wfd addr with
+  | some v => (Rec.dec v).tag
+  | none =>
+    match get sf.wfpo addr with
+    | some v => (Rec.dec v).tag
+    | none => f.psize
+
+/-- `if let Some(file) = self.files.get(&file_id) { frame.set_source_file(file, line, address + base) }` -/
+def setSource (sf : SymFile) (fr : Frame) (fileId line address base : Nat) : Outcome Frame :=
+  match mapGet sf.files fileId with
+  | none => .ok fr
+  | some file =>
+    match checkedAdd address base "set_source_file: address + module.base_address()" with
+    | .panic s => .panic s
+    | .ok b => .ok { fr with src := some (file, line, b) }
+
+/-- the final `add_inline_frame` after the loop (mod.rs:425-434) -/
+def lastInline (sf : SymFile) (f : BFunc) (addr origin : Nat) : List InlineFrame :=
+  let (file, line) : Option Name × Option Nat :=
+    match lineAt f addr with
+    | some l => (mapGet sf.files l.file, if l.line ≠ 0 then some l.line else none)
+    | none => (none, none)
+  match mapGet sf.origins origin with
+  | some name => [⟨name, file, line⟩]
+  | none => []
+
+/-- `for depth in 1.. { match func.get_inlinee_at_depth(depth, addr) … }` followed by the final
+    frame. `none` = out of fuel (never with fuel `inls.length + 1`: `inline_loop_terminates`). -/
+def inlineLoop (sf : SymFile) (f : BFunc) (addr : Nat) :
+    Nat → Nat → Nat → Option (Outcome (List InlineFrame))
+  | 0, _, _ => none
+  | fuel + 1, depth, origin =>
+    -- `RangeFrom<u32>::next` computes `depth + 1` before yielding `depth`
+    if depth ≥ U32MAX then some (.panic "for depth in 1..: u32 overflow") else
+    match inlineeAt f.inls depth addr with
+    | .panic s => some (.panic s)
+    | .ok none => some (.ok (lastInline sf f addr origin))
+    | .ok (some x) =>
+      let hd : List InlineFrame :=
+        match mapGet sf.origins origin with
+        | some name => [⟨name, mapGet sf.files x.callFile, some x.callLine⟩]
+        | none => []
+      match inlineLoop sf f addr fuel (depth + 1) x.origin with
+      | none => none
+      | some (.panic s) => some (.panic s)
+      | some (.ok rest) => some (.ok (hd ++ rest))
+
+/-- `find_nearest_public`: `self.publics.iter().rev().find(|p| p.address <= addr)` -/
+def findNearestPublic (pubs : List Pub) (addr : Nat) : Option Pub :=
+  pubs.reverse.find? fun p => p.addr ≤ addr
+
+/-- the nearest previous FUNC of the table (mod.rs:470-475) -/
+def prevFunc (sf : SymFile) (addr : Nat) : Option BFunc :=
+  match binarySearchBy sf.ftab.length (probeOf sf.ftab fun e => cmpNat e.1.lo addr) with
+  | .found _ => none                                  -- `.err()`
+  | .notFound 0 => none                               -- `checked_sub(1)`
+  | .notFound (i + 1) => (sf.ftab[i]?).bind fun e => sf.funcs[e.2]?
+
+/-- `SymbolFile::fill_symbol(module, frame)` with `module.base_address() = base`,
+    `frame.get_instruction() = instr` -/
+def fillSymbol (sf : SymFile) (base instr : Nat) : Outcome Frame :=
+  if instr < base then .ok {} else
+  let addr := instr - base
+  match funcAt sf.funcs sf.ftab addr with
+  | some f =>
+    let ps := paramSize sf addr f
+    match checkedAdd f.addr base "set_function: func.address + module.base_address()" with
+    | .panic s => .panic s
+    | .ok fbase =>
+      let fr : Frame := { fn := some (f.name, fbase, ps) }
+      -- `get_outermost_sourceloc`: the depth-0 inlinee, else the line record
+      match inlineeAt f.inls 0 addr with
+      | .panic s => .panic s
+      | .ok (some x) =>
+        match setSource sf fr x.callFile x.callLine x.addr base with
+        | .panic s => .panic s
+        | .ok fr =>
+          match inlineLoop sf f addr (f.inls.length + 1) 1 x.origin with
+          | none => .panic "model: inline loop out of fuel"
+          | some (.panic s) => .panic s
+          | some (.ok inl) => .ok { fr with inl := inl }
+      | .ok none =>
+        match lineAt f addr with
+        | none => .ok fr
+        | some l => setSource sf fr l.file l.line l.addr base
+  | none =>
+    match findNearestPublic sf.pubs addr with
+    | none => .ok {}
+    | some p =>
+      match prevFunc sf addr with
+      | some prev =>
+        if p.addr ≤ prev.addr then .ok {}
+        else
+          match checkedAdd p.addr base "set_function: public.address + module.base_address()" with
+          | .panic s => .panic s
+          | .ok b => .ok { fn := some (p.name, b, p.psize) }
+      | none =>
+        match checkedAdd p.addr base "set_function: public.address + module.base_address()" with
+        | .panic s => .panic s
+        | .ok b => .ok { fn := some (p.name, b, p.psize) }
+
+/-- `fill_source_line_info` for a module list holding the single module `[base, base+msize)`:
+    `module_at_address(instruction)`, `fill_symbol`, `frame.inlines.reverse()` -/
+def fillSourceLineInfo (sf : SymFile) (base msize instr : Nat) : Outcome Frame :=
+  match mkRange base msize with
+  | none => .ok {}
+  | some r =>
+    if r.contains instr then
+      match fillSymbol sf base instr with
+      | .panic s => .panic s
+      | .ok fr => .ok { fr with inl := fr.inl.reverse }
+    else .ok {}
+
+/-! ### line protocol
+  `symb fill base:<b> msize:<m> q:<a>,<a>,.. r <rec> <rec> ...`   (all numbers decimal)
+   rec (file order):  F:<id>:<name>                      FILE
+                      O:<id>:<name>                      INLINE_ORIGIN outside a FUNC block
+                      P:<addr>:<psize>:<name>            PUBLIC
+                      W:<4|0>:<addr>:<size>:<psize>      STACK WIN
+                      U:<addr>:<size>:<psize>:<name>     FUNC (opens a block)
+                      L:<addr>:<size>:<line>:<file>      line record         (inside a block only)
+                      I:<depth>:<line>:<file>:<origin>:<a>/<s>+<a>/<s>..  INLINE (inside a block only)
+                      o:<id>:<name>                      INLINE_ORIGIN inside a block
+  answer: per query `<a>:fn=..;src=..;inl=..;ws=fn=..;src=..;inl=..` joined by `|`, or `PANIC`
+-/
+
+open Proto in
+def nameOf (s : String) : Name := s.toUTF8.toList.map UInt8.toNat
+
+def showName (n : Name) : String := String.ofList (n.map Char.ofNat)
+
+structure PState where
+  recs : Recs := {}
+  cur : Option Func := none
+
+def PState.close (st : PState) : PState :=
+  match st.cur with
+  | none => st
+  | some f => { recs := { st.recs with funcs := st.recs.funcs ++ [f] }, cur := none }
+
+open Proto in
+def parseRange (s : String) : Option (Nat × Nat) :=
+  match (s.splitOn "/").map optNat with
+  | [some a, some b] => some (a, b)
+  | _ => none
+
+open Proto in
+def parseRec (st : PState) (tok : String) : Option PState :=
+  match tok.splitOn ":" with
+  | ["F", id, name] => do
+    let id ← optNat id
+    let st := st.close
+    some { st with recs := { st.recs with files := st.recs.files ++ [(id, nameOf name)] } }
+  | ["O", id, name] => do
+    let id ← optNat id
+    let st := st.close
+    some { st with recs := { st.recs with origins := st.recs.origins ++ [(id, nameOf name)] } }
+  | ["P", a, ps, name] => do
+    let a ← optNat a
+    let ps ← optNat ps
+    let st := st.close
+    some { st with recs := { st.recs with pubs := st.recs.pubs ++ [⟨a, nameOf name, ps⟩] } }
+  | ["W", ty, a, s, ps] => do
+    let a ← optNat a
+    let s ← optNat s
+    let ps ← optNat ps
+    let st := st.close
+    if ty == "4" then some { st with recs := { st.recs with win4 := st.recs.win4 ++ [⟨a, s, ps⟩] } }
+    else if ty == "0" then some { st with recs := { st.recs with win0 := st.recs.win0 ++ [⟨a, s, ps⟩] } }
+    else none
+  | ["U", a, s, ps, name] => do
+    let a ← optNat a
+    let s ← optNat s
+    let ps ← optNat ps
+    let st := st.close
+    some { st with cur := some ⟨a, s, ps, nameOf name, [], []⟩ }
+  | ["L", a, s, line, file] => do
+    let a ← optNat a
+    let s ← optNat s
+    let line ← optNat line
+    let file ← optNat file
+    let f ← st.cur
+    some { st with cur := some { f with lines := f.lines ++ [⟨a, s, file, line⟩] } }
+  | ["I", d, line, file, origin, ranges] => do
+    let d ← optNat d
+    let line ← optNat line
+    let file ← optNat file
+    let origin ← optNat origin
+    let f ← st.cur
+    let rs := (ranges.splitOn "+").map parseRange
+    if rs.isEmpty || rs.any Option.isNone then none else
+    let new := rs.filterMap fun r => r.map fun (a, s) => (⟨d, a, s, file, line, origin⟩ : Inl)
+    some { st with cur := some { f with inls := f.inls ++ new } }
+  | ["o", id, name] => do
+    let id ← optNat id
+    let _ ← st.cur
+    some { st with recs := { st.recs with origins := st.recs.origins ++ [(id, nameOf name)] } }
+  | _ => none
+
+def parseRecs : PState → List String → Option Recs
+  | st, [] => some st.close.recs
+  | st, t :: rest =>
+    match parseRec st t with
+    | none => none
+    | some st' => parseRecs st' rest
+
+def showFrame (fr : Frame) : String :=
+  let fn := match fr.fn with
+    | some (n, b, p) => s!"{showName n},{b},{p}"
+    | none => "-"
+  let src := match fr.src with
+    | some (f, l, b) => s!"{showName f},{l},{b}"
+    | none => "-"
+  let opt (o : Option String) : String := o.getD "-"
+  let inl := Proto.joinWith "+" (fr.inl.map fun i =>
+    s!"{showName i.name}/{opt (i.file.map showName)}/{opt (i.line.map toString)}")
+  s!"fn={fn};src={src};inl={inl}"
+
+def showOutcome : Outcome Frame → String
+  | .panic _ => "PANIC"
+  | .ok fr => showFrame fr
+
+open Proto in
+def handle (_engine : String) (args : List String) : String :=
+  match args with
+  | "fill" :: b :: m :: q :: "r" :: toks =>
+    match b.splitOn ":", m.splitOn ":", q.splitOn ":" with
+    | ["base", b], ["msize", m], ["q", qs] =>
+      match optNat b, optNat m, parseRecs {} toks with
+      | some base, some msize, some recs =>
+        let qs' := (pieces qs ",").map optNat
+        if qs'.any Option.isNone then "bad-op" else
+        let qs := qs'.filterMap id
+        match build recs with
+        | .panic _ => "PANIC"
+        | .ok sf =>
+          joinWith "|" (qs.map fun a =>
+            s!"{a}:{showOutcome (fillSymbol sf base a)};ws={showOutcome (fillSourceLineInfo sf base msize a)}")
+      | _, _, _ => "bad-op"
+    | _, _, _ => "bad-op"
+  | _ => "bad-op"
 
 end MdModel.Symbolize
